@@ -180,5 +180,5 @@ META = {
             "Known finding " + KNOWN_ZERO + ": a speed event of value 0 does not stall a running exec (it goes on at the previous rate). "
             "Trusted: Coq kernel, extraction, harness/res_c22.cpp, generator and tolerance comparison in checks/C22.py.",
     "technique": "Coq proof (induction on iterations, Q arithmetic) + extracted-model differential correspondence",
-    "claimed": False,
+    "claimed": True,
 }
